@@ -497,4 +497,14 @@ theorem multi_template_weighted_mean (W : List Mat) (chans : List (List Nat)) (s
     · rw [getD_map_range_ge _ _ _ _ (by omega)]
       simp
 
+/-- the number of cluster waveform blocks is the declared number of clusters -/
+theorem cluster_count_rule (W : List Mat) (chans : List (List Nat)) (st sc : List Nat) (ns nc : Nat) :
+    (loadClusters W chans st sc ns nc).1.length = (loadClusters W chans st sc ns nc).2 ∧
+    (loadClusters W chans st sc ns nc).2 = if sc = st then W.length else sc.foldl max 0 + 1 := by
+  unfold loadClusters
+  by_cases h : sc = st
+  · simp [h]
+  · have hl := (mergeMap_getD_gen st sc 0).2
+    simp [h, clusterWaveforms, hl]
+
 end PhyVerif.C08.Lemmas
